@@ -1,8 +1,8 @@
 CONSTANTS
   Acc = {"a", "b", "c"} Names = {"alpha.jkl"} NameInfo <- MCNameInfo FreeNames = {}
   Denoms = {"ujkl"} Years = {1} Datas = {"{}"} Recs = {}
-  Prices <- MCPrices PriceAmts = {2000000}
-  Jumps = {5484532, 5484533}
+  Prices <- MCPrices PriceAmts = {1000000, 2000000}
+  Jumps = {3, 5484531, 5484532, 5484533}
   YEAR = 5484530 FREETERM = 5733818 MAXH = 11000000
   FIX = {"stale", "lapsed", "bid"}
   H0 = 2 FUND = 12000000
